@@ -325,7 +325,7 @@ impl Interner {
         (first..=self.len())
             .filter_map(Sym::new)
             .filter_map(|sym| self.resolve(sym))
-            .map(|s| s.to_string())
+            .map(|s| s.join(String::from, String::from_utf16_lossy, true))
             .collect()
     }
 
